@@ -734,17 +734,10 @@ theorem parse_dateTime_bodyD (v : DT) (hv : v.valid = true) : parseWith Extracte
   rw [strp_field .d _ _ _ _ (by simp) (fmtD_digits _ _) (fmtD_ne_nil _ _) (by simp [SPiece.width, e2 _ hd]) (by simp) (by simp) (by simp [endsField, isDigit])]
   rw [strp_ws_fail _ 46 _ _ (by decide)]
 
-/-- DateTimeCol / TimestampCol given a `datetime.date`: accepted, stored as 'YYYY-MM-DD', Invalid on read -/
-theorem readBack_dateTime_of_date (T : ColT) (hT : T = .dateTime ∨ T = .timestamp) (y mo d : Nat)
-    (hv : (⟨y, mo, d, 0, 0, 0, 0⟩ : DT).valid = true) :
-    toDb T (.date y mo d) = .ok (.date y mo d) ∧
-    roundtrip T (.date y mo d) = .ok (.str (bodyD ⟨y, mo, d, 0, 0, 0, 0⟩)) ∧
-    toPy T (.str (bodyD ⟨y, mo, d, 0, 0, 0, 0⟩)) = .invalid := by
-  have ha : aff T = .numeric := by rcases hT with rfl | rfl <;> decide
-  refine ⟨?_, ?_, ?_⟩
-  · rcases hT with rfl | rfl <;> simp [toDb, dtFromPython, passes, Extracted.dtFromPythonPass]
-  · exact roundtrip_text_numeric T _ _ ha (by simp [lit, render_d]) (plain_bodyD _) (isNumericText_bodyD _)
-  · rcases hT with rfl | rfl <;> simp [toPy, dtToPython, passes, parse_dateTime_bodyD _ hv]
+/-- DateTimeCol / TimestampCol given a `datetime.date`: normalised to midnight of that day -/
+theorem toDb_dateTime_of_date (T : ColT) (hT : T = .dateTime ∨ T = .timestamp) (y mo d : Nat) :
+    toDb T (.date y mo d) = .ok (.datetime y mo d 0 0 0 0) := by
+  rcases hT with rfl | rfl <;> simp [toDb, dtFromPython, passes, Extracted.dtFromPythonPass]
 
 /-- well-formed values of the universe: NUL-free text, bytes < 256, calendar-valid dates and times -/
 def wf : PyVal → Prop
@@ -768,8 +761,6 @@ def isIntLikeT (T : ColT) : Bool :=
     implementation by the harness under its own key) -/
 def knownBad (T : ColT) (x : PyVal) : Bool :=
   match x with
-  | .date .. => isDateTimeT T || T == .time
-  | .time .. => isDateTimeT T || T == .date
   | .int i => (isIntLikeT T && !int64 i) || (T == .float && !exactInt i)
   | .sqlobj id => T == .fkInt && !int64 id
   | .str s => T == .fkInt && (match intText s with | some i => !int64 i | none => false)
@@ -886,6 +877,11 @@ theorem accepted_dateTime (T : ColT) (hT : T = .dateTime ∨ T = .timestamp) (x 
     have hdb' : toDb T (dtOf ⟨y, mo, d, h, mi, s, us⟩) = .ok (dtOf ⟨y, mo, d, h, mi, s, us⟩) := by
       rcases hT with rfl | rfl <;> simp [toDb, dtFromPython, dtOf, passes, Extracted.dtFromPythonPass]
     exact readable_of_readBack T _ _ _ hdb' this (norm_refl _ _)
+  · rename_i y mo d
+    have := readBack_dateTime T hT ⟨y, mo, d, 0, 0, 0, 0⟩ hw
+    have hdb' : toDb T (dtOf ⟨y, mo, d, 0, 0, 0, 0⟩) = .ok (dtOf ⟨y, mo, d, 0, 0, 0, 0⟩) := by
+      rcases hT with rfl | rfl <;> simp [toDb, dtFromPython, dtOf, passes, Extracted.dtFromPythonPass]
+    exact readable_of_readBack T _ _ _ hdb' this (by rcases hT with rfl | rfl <;> simp [normalises, coerces, dtOf])
 
 theorem valid_date_part (y mo d h mi s us : Nat) (hv : (⟨y, mo, d, h, mi, s, us⟩ : DT).valid = true) :
     (⟨y, mo, d, 0, 0, 0, 0⟩ : DT).valid = true := by
@@ -935,11 +931,13 @@ theorem accepted_decimal (T : ColT) (hT : T = .decimal ∨ T = .currency) (x y :
   all_goals first
     | exact readable_of _ _ _ _ _ (roundtrip_none _) (by simp [toPy]) (norm_refl _ _)
     | (rename_i b
-       exact readable_of _ _ _ (.int (if b then 1 else 0)) (.int (if b then 1 else 0)) (roundtrip_bool _ b (Or.inr ha))
-         (by simp [toPy]) (by cases b <;> simp [normalises, pyEq]))
+       exact readable_of _ _ _ (.int (if b then 1 else 0)) (.decimal (if b then [49] else [48]))
+         (roundtrip_bool _ b (Or.inr ha))
+         (by cases b <;> simp [toPy, reprInt, showNat]) (by cases b <;> simp [normalises, coerces]))
     | (rename_i i
        have h64 : int64 i = true := by simp [knownBad, isIntLikeT] at hk; exact hk
-       exact readable_of _ _ _ _ _ (roundtrip_int _ i (Or.inr ha) h64) (by simp [toPy]) (norm_refl _ _))
+       exact readable_of _ _ _ _ (.decimal (reprInt i)) (roundtrip_int _ i (Or.inr ha) h64) (by simp [toPy])
+         (by simp [normalises, coerces]))
 
 theorem accepted_decimalString (x y : PyVal) (hw : wf x) (h : toDb .decimalString x = .ok y) :
     Readable .decimalString x y := by
